@@ -179,7 +179,12 @@ func ruleMustCallEntries(c *Ctx, u *Universe, prop string, table []mustCallEntry
 				}
 			}
 		} else {
-			f = u.ssaFunc(rel, name)
+			f = u.ssaFuncExact(rel, name)
+			if f == nil && u.inlinedInto(rel, name) != "" {
+				// F was inlined into its caller and deleted: "every exit of F" has no subject any more
+				R.hold(rule, e.Fn+" -> "+e.Callee, "", "the function no longer exists (inlined into "+u.inlinedInto(rel, name)+"): the pair has no subject")
+				continue
+			}
 		}
 		key := e.Fn + " -> " + e.Callee
 		if f == nil && strings.Contains(name, "$") {
